@@ -27,7 +27,7 @@ def expected_tx(x, d):
     return NS.phys(nh, pipe, False)
 
 
-def o1_sender(ctx, lx, ld, n, frag, fail, mlvl=False, toggle=False):
+def o1_sender(ctx, lx, ld, n, frag, fail, mlvl=False, toggle=False, getters=False):
     from circuitpython_nrf24l01.network.structs import RF24NetworkHeader
     clock = fresh_env(ctx)
     radio, node, x = build_node(ctx, clock, "net", lx)
@@ -38,6 +38,8 @@ def o1_sender(ctx, lx, ld, n, frag, fail, mlvl=False, toggle=False):
     if toggle:  # fragmentation switched off and on again (the documented way back): long messages travel as before
         node.fragmentation = not frag
     node.fragmentation = frag
+    if getters:  # reading every read-only attribute beforehand changes nothing
+        touch_getters(node)
     total = max(1, (n + 23) // 24)
     uids = []
     fail_at = ctx.int("fail_at", 0, total - 1) if fail else None
@@ -257,6 +259,8 @@ def jobs(tier):
     for lx, ld, n in ((1, 2, 25), (2, 0, 144), (0, 3, 49)):
         out.append(Job("O1-sender-step-after-toggling-fragmentation", o1_sender, dict(lx=lx, ld=ld, n=n, frag=True, fail=False, toggle=True), cost=8))
     out.append(Job("O1-sender-step-after-toggling-fragmentation", o1_sender, dict(lx=2, ld=1, n=24, frag=False, fail=False, toggle=True), cost=4))
+    for lx, ld, n in ((3, 1, 30), (0, 2, 1)):
+        out.append(Job("O1-sender-step-after-reading-every-getter", o1_sender, dict(lx=lx, ld=ld, n=n, frag=True, fail=False, getters=True), cost=8))
     for n in (25, 72, 144):
         out.append(Job("O1-sender-step-failing-frame", o1_sender, dict(lx=1, ld=2, n=n, frag=True, fail=True), cost=30))
     roles = ("routing", "net", "mesh")
